@@ -277,3 +277,106 @@ Proof.
 Qed.
 
 End Arith.
+
+(** ------------------------------------------------------------------ *)
+(** closed form of the tree-shape count: with h the least height such that
+    size <= chunk * b^h, the root holds ceil(size / (chunk * b^(h-1))) references *)
+Section Closed.
+Variables chunk branching : N.
+Hypothesis Hc : 1 <= chunk.
+Hypothesis Hb : 2 <= branching.
+
+Lemma cdiv_le_iff n d k : 0 < d -> (cdiv n d <= k <-> n <= d * k).
+Proof.
+  intros Hd. destruct (N.eq_dec n 0) as [->|Hn].
+  - unfold cdiv. cbn [N.add]. rewrite N.div_small by lia. split; lia.
+  - rewrite cdiv_pred by lia. split; intros Hk.
+    + assert (Hlt : (n - 1) / d < k) by lia.
+      assert (n - 1 < d * k); [|lia].
+      destruct (N.lt_ge_cases (n - 1) (d * k)) as [|Hge]; [assumption|].
+      assert (k <= (n - 1) / d) by (apply N.div_le_lower_bound; lia). lia.
+    + assert ((n - 1) / d < k); [|lia].
+      apply N.div_lt_upper_bound; lia.
+Qed.
+
+Lemma level_counts_closed : forall (f : nat) (x q : N),
+  1 <= q -> 2 <= cdiv x q -> cdiv x q <= 2 ^ N.of_nat f ->
+  penultimate (level_counts (S f) branching (cdiv x q)) =
+  Some (cdiv x (q * branching ^ N.of_nat (height_from f branching (q * branching) x))).
+Proof.
+  induction f as [|f IH]; intros x q Hq Hm Hf.
+  - cbn in Hf. lia.
+  - change (level_counts (S (S f)) branching (cdiv x q))
+      with (if cdiv x q <=? 1 then [cdiv x q]
+            else cdiv x q :: level_counts (S f) branching (cdiv (cdiv x q) branching)).
+    destruct (N.leb_spec (cdiv x q) 1); [lia|].
+    cbn [height_from].
+    destruct (N.leb_spec x (q * branching)) as [Hle|Hgt].
+    + assert (Hmb : cdiv x q <= branching) by (apply cdiv_le_iff; lia).
+      rewrite (cdiv_small (cdiv x q) branching) by lia. rewrite level_counts_one.
+      cbn [penultimate N.of_nat]. rewrite N.pow_0_r, N.mul_1_r. reflexivity.
+    + rewrite cdiv_cdiv by lia.
+      assert (Hm2 : 2 <= cdiv x (q * branching)).
+      { destruct (N.lt_ge_cases (cdiv x (q * branching)) 2) as [Hlt|]; [|assumption].
+        assert (cdiv x (q * branching) <= 1) by lia.
+        apply cdiv_le_iff in H0; nia. }
+      assert (Hm'f : cdiv x (q * branching) <= 2 ^ N.of_nat f).
+      { rewrite <- cdiv_cdiv by lia.
+        rewrite (cdiv_pred (cdiv x q)) by lia.
+        assert ((cdiv x q - 1) / branching < 2 ^ N.of_nat f); [|lia].
+        apply N.div_lt_upper_bound; [lia|].
+        replace (N.of_nat (S f)) with (N.succ (N.of_nat f)) in Hf by lia.
+        rewrite N.pow_succ_r' in Hf. nia. }
+      specialize (IH x (q * branching) ltac:(nia) Hm2 Hm'f).
+      destruct (level_counts (S f) branching (cdiv x (q * branching))) as [|a [|b2 t]] eqn:El;
+        cbn in IH; try discriminate.
+      cbn [penultimate]. rewrite IH. f_equal. f_equal.
+      replace (N.of_nat (S (height_from f branching (q * branching * branching) x)))
+        with (N.succ (N.of_nat (height_from f branching (q * branching * branching) x))) by lia.
+      rewrite N.pow_succ_r'. lia.
+Qed.
+
+Lemma root_refs_is_closed x :
+  chunk < x -> x < W64 -> root_refs chunk branching x = Some (root_refs_closed chunk branching x).
+Proof.
+  intros Hx Hw. unfold root_refs, root_refs_closed, height.
+  change 64%nat with (S 63).
+  rewrite level_counts_closed.
+  - cbn [height_from]. destruct (N.leb_spec x chunk); [lia|].
+    replace (S (height_from 63 branching (chunk * branching) x) - 1)%nat
+      with (height_from 63 branching (chunk * branching) x) by lia.
+    reflexivity.
+  - lia.
+  - apply cdiv_ge2; lia.
+  - rewrite cdiv_pred by lia.
+    assert ((x - 1) / chunk < 2 ^ N.of_nat 63); [|lia].
+    apply N.div_lt_upper_bound; [lia|].
+    change (2 ^ N.of_nat 63) with 9223372036854775808.
+    rewrite W64_val in Hw. nia.
+Qed.
+
+(** [height] is the least h with x <= chunk * b^h (given enough fuel) *)
+Lemma height_from_spec : forall (f : nat) (cap x : N),
+  1 <= cap -> x <= cap * branching ^ N.of_nat f ->
+  let h := height_from f branching cap x in
+  x <= cap * branching ^ N.of_nat h /\ (forall h', (h' < h)%nat -> cap * branching ^ N.of_nat h' < x).
+Proof.
+  induction f as [|f IH]; intros cap x Hcap Hf; cbn [height_from].
+  - cbn in Hf. split; [cbn; lia|]. intros h' Hh'. lia.
+  - destruct (N.leb_spec x cap) as [Hle|Hgt].
+    + split; [cbn; lia|]. intros h' Hh'. lia.
+    + replace (N.of_nat (S f)) with (N.succ (N.of_nat f)) in Hf by lia.
+      rewrite N.pow_succ_r' in Hf.
+      destruct (IH (cap * branching) x ltac:(nia) ltac:(lia)) as [H1 H2].
+      split.
+      * replace (N.of_nat (S (height_from f branching (cap * branching) x)))
+          with (N.succ (N.of_nat (height_from f branching (cap * branching) x))) by lia.
+        rewrite N.pow_succ_r'. lia.
+      * intros [|h'] Hh'.
+        { cbn. lia. }
+        specialize (H2 h' ltac:(lia)).
+        replace (N.of_nat (S h')) with (N.succ (N.of_nat h')) by lia.
+        rewrite N.pow_succ_r'. lia.
+Qed.
+
+End Closed.
